@@ -91,6 +91,17 @@ class Int:
         return "%s%+d" % (self.base, self.k)
 
 
+class DiffV:
+    """a - b + k for two integer terms over different symbols: only its comparisons with literals are meaningful."""
+    __slots__ = ("a", "b", "k")
+
+    def __init__(self, a, b, k=0):
+        self.a, self.b, self.k = a, b, k
+
+    def __repr__(self):
+        return "(%r - %r%s)" % (self.a, self.b, ("%+d" % self.k) if self.k else "")
+
+
 class Const:
     """A literal Python constant (int, str, None, bool)."""
     __slots__ = ("v",)
@@ -421,7 +432,9 @@ class Interp:
         if isinstance(v, Opaque):
             return self.w.choose(("truthy-opaque", v.tag))
         if isinstance(v, SentinelV):
-            return True
+            return not getattr(v, "falsy", False)
+        if isinstance(v, DiffV):
+            return not self.cmp_int(v.a, Int(v.b.base, v.b.k - v.k), "==", node)
         r = self.w.truth_of(self, v)
         if r is not None:
             return r
@@ -892,6 +905,13 @@ class Interp:
                 return Const(a.v + sign * b.v)
             if isinstance(a, Int) and isinstance(b, Int) and sign == -1 and a.base == b.base:
                 return Const(a.k - b.k)
+            if isinstance(a, Int) and isinstance(b, Int) and sign == -1:
+                r = self.w.binop(self, a, op, b, node)        # a world may know the difference as a symbol of its own
+                return r if r is not None else DiffV(a, b)
+            if isinstance(a, DiffV) and isinstance(b, Const) and isinstance(b.v, int) and not isinstance(b.v, bool):
+                return DiffV(a.a, a.b, a.k + sign * b.v)
+            if isinstance(a, Const) and isinstance(b, DiffV) and sign == 1 and isinstance(a.v, int) and not isinstance(a.v, bool):
+                return DiffV(b.a, b.b, b.k + a.v)
             if isinstance(a, ListObj) and isinstance(b, ListObj) and sign == 1:
                 return ListObj(a.items + b.items)
             if isinstance(a, Const) and isinstance(b, Const) and isinstance(a.v, str) and isinstance(b.v, str) and sign == 1:
@@ -955,6 +975,12 @@ class Interp:
             r = self.contains(b, a, node)
             return r if isinstance(op, ast.In) else not r
         sym = {ast.Lt: "<", ast.LtE: "<=", ast.Gt: ">", ast.GtE: ">=", ast.Eq: "==", ast.NotEq: "!="}[type(op)]
+        if isinstance(b, DiffV) and isinstance(a, Const):
+            a, b = b, a
+            sym = {"<": ">", "<=": ">=", ">": "<", ">=": "<=", "==": "==", "!=": "!="}[sym]
+        if isinstance(a, DiffV) and isinstance(b, Const) and isinstance(b.v, int) and not isinstance(b.v, bool):
+            # a.a - a.b + k  (sym)  c   <=>   a.a  (sym)  a.b + (c - k)
+            return self.cmp_int(a.a, Int(a.b.base, a.b.k + b.v - a.k), sym, node)
         if isinstance(a, (Int, Const)) and isinstance(b, (Int, Const)) and not (
                 isinstance(a, Const) and not isinstance(a.v, (int, float)) or
                 isinstance(b, Const) and not isinstance(b.v, (int, float))):
@@ -978,6 +1004,13 @@ class Interp:
             if a.role == b.role:
                 return True
             return self.w.nodes_equal(a, b)
+        if (isinstance(a, NodeV) and isinstance(b, (Int, Const))) or (isinstance(b, NodeV) and isinstance(a, (Int, Const))):
+            # a node id is an arbitrary hashable: it may well equal an instant or an op string
+            h = getattr(self.w, "node_equals_value", None)
+            if h is not None:
+                n_, v_ = (a, b) if isinstance(a, NodeV) else (b, a)
+                return bool(h(self, n_, v_, node))
+            return False
         if isinstance(a, (Int, Const)) and isinstance(b, (Int, Const)):
             if isinstance(a, Int) and isinstance(b, Int):
                 return self.cmp_int(a, b, "==", node)
@@ -1168,7 +1201,10 @@ class Interp:
                 if seq is not None:
                     return FrozenV(seq)
             if f.name in ("float", "bool") and len(args) == 1 and isinstance(args[0], Const):
-                return Const({"float": float, "bool": bool}[f.name](args[0].v))
+                try:
+                    return Const({"float": float, "bool": bool}[f.name](args[0].v))
+                except (TypeError, ValueError) as ex:
+                    raise AbstractRaise(type(ex).__name__, e, detail=str(ex))
             if f.name in ("list", "set") and not args:
                 return ListObj([]) if f.name == "list" else SetObj()
             if f.name == "dict" and len(args) == 1 and not kwargs:
@@ -1189,6 +1225,10 @@ class Interp:
             raise Unsupported(e, "constructor call")
         if isinstance(f, BoundMethod):
             return self.call_method(f, args, kwargs, e)
+        if isinstance(f, Opaque) and f.tag.startswith("module:bisect.") and 2 <= len(args) <= 4:
+            r = self.call_bisect(f.tag.split(".", 1)[1], args, kwargs, e)
+            if r is not None:
+                return r
         if isinstance(f, Opaque) and f.tag == "module:collections.defaultdict" and len(args) <= 1 and not kwargs:
             d = DictObj()
             if args and not (isinstance(args[0], Const) and args[0].v is None):
@@ -1248,6 +1288,38 @@ class Interp:
             if isinstance(c, (ListObj, TupleV)):
                 q = list(c.items)
         return q
+
+    def call_bisect(self, fname, args, kwargs, node):
+        """bisect_left / bisect_right / bisect / insort* on a concrete list whose elements can be ordered against x."""
+        if fname not in ("bisect_left", "bisect_right", "bisect", "insort", "insort_left", "insort_right"):
+            return None
+        lst, x = args[0], args[1]
+        if not isinstance(lst, ListObj) or getattr(lst, "has_prefix", False) or set(kwargs) - {"key", "lo", "hi"} or len(args) > 2:
+            return None
+        if "lo" in kwargs or "hi" in kwargs:
+            return None
+        keyf = kwargs.get("key")
+        keys = [self.apply_value(keyf, [y], node) for y in lst.items] if keyf is not None and not (
+            isinstance(keyf, Const) and keyf.v is None) else list(lst.items)
+        left = fname.endswith("left")
+        pos = 0
+        xk = x
+        if fname.startswith("insort") and keyf is not None and not (isinstance(keyf, Const) and keyf.v is None):
+            xk = self.apply_value(keyf, [x], node)
+        for k in keys:
+            c = self._order(k, xk, node)
+            if c is None:
+                return None
+            if c < 0 or (c == 0 and not left):
+                pos += 1
+            else:
+                break
+        if fname.startswith("insort"):
+            if lst.persistent:
+                self.w.effect(("heap_append", lst.tag, "insort"), node)
+            lst.items.insert(pos, x)
+            return NONE
+        return Const(pos)
 
     def call_itertools(self, fname, args, kwargs, node):
         import itertools as _it
@@ -1405,6 +1477,18 @@ class Interp:
                 raise AbstractRaise("StopIteration", node, detail="next() on an exhausted iterator")
             it.pos += 1
             return it.items[it.pos - 1]
+        if name == "defaultdict" and len(args) <= 1 and not kwargs:
+            d = DictObj()
+            if args and not (isinstance(args[0], Const) and args[0].v is None):
+                fac = args[0]
+                if isinstance(fac, TypeV) and fac.name in ("set", "list", "dict", "int", "float"):
+                    d.default_factory = {"set": SetObj, "list": lambda: ListObj([]), "dict": DictObj, "int": lambda: Const(0),
+                                         "float": lambda: Const(0.0)}[fac.name]
+                elif isinstance(fac, (LambdaV, LocalFuncV)):
+                    d.default_factory = lambda fac=fac: self.apply_value(fac, [], node)
+                else:
+                    raise Unsupported(node, "defaultdict factory %r" % (fac,))
+            return d
         if name in ("map", "filter") and len(args) == 2 and not kwargs:
             seq = self._seq(args[1], node)
             if seq is not None:
@@ -1420,6 +1504,10 @@ class Interp:
                 for x in seq:
                     d.entries.setdefault(self.dict_key(x, node), args[1] if len(args) == 2 else NONE)
                 return d
+        if name == "enumerate" and 1 <= len(args) <= 2 and not isinstance(args[0], (ListObj, TupleV, IterV)):
+            q = self._seq(args[0], node)
+            if q is not None:
+                args = [ListObj(q)] + list(args[1:])
         if name == "enumerate" and 1 <= len(args) <= 2 and isinstance(args[0], (ListObj, TupleV, IterV)):
             start = 0
             if len(args) == 2 or "start" in kwargs:
@@ -1443,6 +1531,11 @@ class Interp:
 
     def _order(self, a, b, node):
         """-1 / 0 / 1 for two comparable abstract values, None when their order is not modelled."""
+        for x, y, sgn in ((a, b, 1), (b, a, -1)):
+            if isinstance(x, Const) and isinstance(x.v, float) and x.v in (float("inf"), float("-inf")) and isinstance(y, (Int, Const)):
+                if isinstance(y, Const) and isinstance(y.v, float) and y.v == x.v:
+                    return 0
+                return sgn * (1 if x.v > 0 else -1)
         if isinstance(a, (Int, Const)) and isinstance(b, (Int, Const)):
             if isinstance(a, Const) and isinstance(b, Const):
                 if isinstance(a.v, str) and isinstance(b.v, str) or (
